@@ -1,0 +1,26 @@
+//go:build verif
+
+// Hooks for the verification harness in /verif (C32). Add-only.
+
+package server
+
+import "github.com/gopcua/opcua/ua"
+
+// VerifNewSession registers a new session with the session broker (what
+// CreateSession does first) and returns its authentication token.
+func (s *Server) VerifNewSession() *ua.NodeID { return s.sb.NewSession().AuthTokenID }
+
+// VerifOwner returns the authentication token of the session the subscription
+// belongs to (nil when it was created without a known session).
+func (s *Subscription) VerifOwner() *ua.NodeID {
+	if s == nil || s.Session == nil {
+		return nil
+	}
+	return s.Session.AuthTokenID
+}
+
+// VerifItemCounter returns the monitored item id counter.
+func (s *MonitoredItemService) VerifItemCounter() uint32 { return s.id }
+
+// VerifSetItemCounter sets the monitored item id counter (to reach the wrap).
+func (s *MonitoredItemService) VerifSetItemCounter(v uint32) { s.id = v }
